@@ -254,7 +254,9 @@ static_assert(!std::is_trivially_copy_constructible_v<Trc<8>> && !std::is_trivia
 template <class T>
 std::uint64_t id_of(const T& t)
 {
-    if constexpr (std::is_arithmetic_v<T>)
+    if constexpr (std::is_integral_v<T> && std::is_signed_v<T>)
+        return static_cast<std::uint64_t>(static_cast<std::make_unsigned_t<T>>(t));  // values travel as the unsigned representation
+    else if constexpr (std::is_arithmetic_v<T>)
         return static_cast<std::uint64_t>(t);
     else
         return t.id();
